@@ -4,6 +4,7 @@ import (
 	"bufio"
 	"fmt"
 	"io"
+	"os"
 	"os/exec"
 	"strconv"
 	"strings"
@@ -32,6 +33,10 @@ type Solver struct {
 	Log     io.Writer
 	declared []map[string]bool // per push level
 	timeoutMs int
+	keepAll     bool
+	inRetry     bool
+	Retried     int
+	lastAsserts []string
 }
 
 func solverArgs(name string, timeoutMs int) (string, []string) {
@@ -63,6 +68,7 @@ func NewSolver(name string, timeoutMs int) (*Solver, error) {
 	}
 	s := &Solver{Name: name, cmd: cmd, in: in, out: bufio.NewReaderSize(outp, 1<<16), Queries: map[Result]int{}, timeoutMs: timeoutMs}
 	s.declared = []map[string]bool{{}}
+	s.keepAll = os.Getenv("SYMGO_DUMP_UNKNOWN") != ""
 	if name == "cvc5" {
 		s.send("(set-logic ALL)")
 	}
@@ -81,6 +87,9 @@ func (s *Solver) Close() {
 }
 
 func (s *Solver) send(line string) {
+	if s.keepAll {
+		s.lastAsserts = append(s.lastAsserts, line)
+	}
 	if s.Log != nil {
 		fmt.Fprintln(s.Log, line)
 	}
@@ -127,6 +136,12 @@ func (s *Solver) Assert(t *Term) {
 // Check runs check-sat on the current assertion stack.
 func (s *Solver) Check() Result {
 	t0 := time.Now()
+	staged := (s.Name == "z3" || s.Name == "z3-new") && !s.inRetry && s.timeoutMs > 4000
+	if staged {
+		// stage 1: the incremental core with a short timeout; stage 2 (on unknown): the eager bit-blasting tactic;
+		// stage 3: the incremental core with the full timeout
+		s.send("(set-option :timeout 2000)")
+	}
 	s.send("(check-sat)")
 	r := Unknown
 	line, err := s.readLine()
@@ -157,8 +172,48 @@ func (s *Solver) Check() Result {
 		s.Errors = append(s.Errors, "unexpected solver output: "+line)
 		r = Unknown
 	}
+	if staged {
+		s.send(fmt.Sprintf("(set-option :timeout %d)", s.timeoutMs))
+	}
+	if r == Unknown && (s.Name == "z3" || s.Name == "z3-new") && !s.inRetry {
+		// the default (lazy) core can be slow on pure bit-vector arithmetic: retry once with the eager QF_BV tactic,
+		// which fails harmlessly (error => still unknown) when other theories are present
+		s.inRetry = true
+		s.send("(check-sat-using (then simplify propagate-values solve-eqs bit-blast sat))")
+		if line2, err2 := s.readLine(); err2 == nil {
+			switch line2 {
+			case "sat":
+				r = Sat
+				s.Retried++
+			case "unsat":
+				r = Unsat
+				s.Retried++
+			}
+		}
+		if r == Unknown && staged {
+			s.send("(check-sat)")
+			if line3, err3 := s.readLine(); err3 == nil {
+				switch line3 {
+				case "sat":
+					r = Sat
+				case "unsat":
+					r = Unsat
+				}
+			}
+		}
+		s.inRetry = false
+	}
 	s.Time += time.Since(t0)
 	s.Queries[r]++
+	if r == Unknown && os.Getenv("SYMGO_DUMP_UNKNOWN") != "" && s.lastAsserts != nil {
+		f, _ := os.CreateTemp(os.Getenv("SYMGO_DUMP_UNKNOWN"), "unknown-*.smt2")
+		if f != nil {
+			for _, l := range s.lastAsserts {
+				fmt.Fprintln(f, l)
+			}
+			f.Close()
+		}
+	}
 	return r
 }
 
